@@ -63,7 +63,7 @@ ASSUMPTIONS = [
     'when available, else under /tmp',
 ]
 TRUSTED = ['pbt/fakezk.py', 'pbt/vclock.py', 'pbt/archiver.py']
-BUDGET = {'quick': 800, 'thorough': 24000}
+BUDGET = {'quick': 400, 'thorough': 16000}
 
 SECOND = 1000000
 DAY = 24 * 3600 * SECOND
